@@ -181,6 +181,18 @@ def run(ctx: Ctx) -> None:
         none_at_all = not ok and not any(isinstance(x, ast.Call) and call_name(x) == 'audit' for x in walk_no_nested(f.node))
         ctx.add('C12.R1', f'{c.name}.audit', ok if (ok or none_at_all) else None, f, f'{c.name}.audit: {why}' + ('' if ok else (' - a fault below this node is not reported by the audit' if none_at_all else ' (the way the children are audited is not in the expected form)')), why, positive=none_at_all)
     ctx.floor('C12.R1', 8)
+    # one name for two kinds of element is refused (obligation of C03.R3 on IdManager.prepare)
+    ctx.rule('C12.R9', 'a name shared by two elements (parameters, random variables, draws, data columns) is refused: the duplicate test of IdManager.prepare covers all five kinds (obligation of C03.R3)')
+    from . import c03
+
+    sub3 = Ctx(prog, ctx.prop, ctx.tier)
+    c03.run(sub3)
+    got3 = 0
+    for o in sub3.obligations:
+        if o.construct == 'IdManager.prepare:duplicates':
+            got3 += 1
+            ctx.adopt('C12.R9', o)
+    ctx.need(got3 == 1, 'the obligation of C03.R3 on the duplicate-name test')
     # MultipleExpression must override audit (the base version audits the children of the selected member, not the member)
     me = prog.cls('expressions.multiple_expressions', 'MultipleExpression')
     ctx.add('C12.R1', 'MultipleExpression:override', 'audit' in me.methods, me, 'a catalog audits the selected member itself' if 'audit' in me.methods else 'MultipleExpression inherits Expression.audit: the own checks of the selected member are skipped', 'override')
